@@ -156,6 +156,49 @@ def n7_derived_key_on_every_path(ctx, prog, bodies, rule="N7"):
     ctx.floor(rule, "cipher states built from a labelled derivation (VMess chunk-length cipher)", 1, n)
 
 
+def n8_keyed_state_is_never_reset(ctx, prog, bodies, rule="N8"):
+    """N8: a direction's cipher state (its subkey and its nonce counter) is created once, lazily, from the session's one salt. If the object that
+    holds it is put back to its initial value while the session lives on - `*self = Self::default()`, `self.encoder = None` - the next write
+    creates it again from the *same* salt: same subkey, counter back at zero, and every unit from then on is sealed under a (key, nonce) pair
+    the start of the stream already used. Codecs that hold an encoder: no whole-object overwrite and no reset of the encoder field outside
+    constructors."""
+    holders = {it["path"]: [fn for (fn, fty) in it["fields"] if "Encoder" in fty and "Option<" in fty] for it in prog.items
+               if it["k"] == "struct" and any("Encoder" in fty and "Option<" in fty for (_, fty) in it["fields"])}
+    ctx.floor(rule, "codecs that hold a lazily keyed encoder", 1, len(holders))
+    n = 0
+    for b in bodies:
+        sd = b.impl_self_def or (prog.body(b.root).impl_self_def if prog.body(b.root) is not None else None)
+        if sd not in holders or b.argc < 1 or not b.local_ty(1).lstrip().startswith("&mut"):
+            continue
+        n += 1
+        for blk in b.rpo():
+            for s_ in b.stmts(blk):
+                if s_["k"] != "assign" or s_["p"][0] != 1:
+                    continue
+                proj = s_["p"][1]
+                fields = [e[2] for e in proj if e[0] == "field" and len(e) > 2]
+                whole = proj == [["deref"]] or (len(proj) == 1 and proj[0][0] == "deref")
+                enc_field = len(fields) == 1 and fields[0] in holders[sd] and len([e for e in proj if e[0] in ("field", "downcast")]) == 1
+                if not whole and not enc_field:
+                    continue
+                rv = s_["rv"]
+                is_reset = whole
+                if enc_field:
+                    if rv["k"] == "agg" and rv.get("variant") == "None":
+                        is_reset = True
+                    q = op_place(rv["op"]) if rv["k"] == "use" else None
+                    if q is not None and any(d[0] == "call" and Callee(d[2]["f"]).name in ("Default::default", "Option::take") for d in b.defs().get(q[0], [])):
+                        is_reset = True
+                    if q is not None and any(d[0] == "assign" and d[3]["rv"]["k"] == "agg" and d[3]["rv"].get("variant") == "None" for d in b.defs().get(q[0], [])):
+                        is_reset = True
+                if is_reset:
+                    ctx.ob(rule, b.defp, "keyed-direction-state-is-never-reset", loc(s_["sp"]), False,
+                           ("the whole codec object is overwritten" if whole else f"`{fields[0]}` is put back to `None`") + " while the session it belongs to lives on: the encoder is "
+                           "keyed lazily from the session's one salt, so the next write sends that salt again, derives the same subkey and restarts the nonce counter at zero - "
+                           "every later unit repeats a (key, nonce) pair of the start of the stream")
+    ctx.ob(rule, "workspace", "scan", "-", True, f"{n} `&mut self` methods of encoder-holding codecs scanned", nontrivial=False, ordinal=False)
+
+
 def n5(ctx, prog, bodies):
     """N5: the per-session subkey binds the salt — the key material handed to blake3::derive_key is exactly `key || salt`.
     Accepted constructions: `[key, salt].concat()` (array of the two slices, the second one not a constant), or copies into a buffer
@@ -234,6 +277,7 @@ def run(ctx):
     n5(ctx, prog, bodies)
     n6_one_nonce_sequence_per_subkey(ctx, prog, bodies)
     n7_derived_key_on_every_path(ctx, prog, bodies)
+    n8_keyed_state_is_never_reset(ctx, prog, bodies)
     # ---------------- who-may-call -------------------------------------------------------------
     n_rng = 0
     for b in bodies:
